@@ -63,7 +63,26 @@ func genC03(rng *rand.Rand, n int, emit func(Case), dist map[string]int) {
 				break
 			}
 			it++
+			if rng.Intn(6) == 0 {
+				// one more method on a path that is already registered - AFTER requests (also OPTIONS) have been answered:
+				// what was advertised or cached for the path before must not survive
+				base := rs[rng.Intn(len(rs))]
+				nm := []string{"GET", "POST", "PUT", "DELETE", "PATCH", "HEAD"}[rng.Intn(6)]
+				dup := false
+				for _, r := range rs {
+					dup = dup || rKey(r) == rKey(rRoute{nm, base.pattern})
+				}
+				if !dup && base.method != rNF {
+					nr := rRoute{nm, base.pattern}
+					rs = append(rs, nr)
+					srv.add(nr, len(rs)-1)
+					dist["registrations_after_requests"]++
+				}
+			}
 			m := reqMethods[rng.Intn(len(reqMethods))]
+			if rng.Intn(3) == 0 {
+				m = "OPTIONS"
+			}
 			o := srv.serve(m, path)
 			rp := rRouterPath(path)
 			ok, why := rCheck(rs, m, path, o)
@@ -106,6 +125,15 @@ func genC03(rng *rand.Rand, n int, emit func(Case), dist map[string]int) {
 						ok, why = false, fmt.Sprintf("Allow advertises %s for %q but a %s request is answered %s", a, rp, a, f)
 					}
 					dist["allow_followups"]++
+				}
+				// ... and the automatic OPTIONS answer carries the SAME Allow as the 405 for that path (also after a method
+				// was registered once earlier requests had been answered)
+				probe := "OPTIONS"
+				if m == "OPTIONS" {
+					probe = "XVERIFY" // a method no table registers
+				}
+				if f := srv.serve(probe, path); ok && (f.status == 405 || f.status == 204) && fmt.Sprint(f.allow) != fmt.Sprint(o.allow) {
+					ok, why = false, fmt.Sprintf("%s %s is answered with Allow %v, %s %s with Allow %v", m, rp, o.allow, probe, rp, f.allow)
 				}
 			}
 			known := ""
